@@ -8,6 +8,7 @@ import (
 	"time"
 
 	"github.com/cenkalti/backoff/v4"
+	v3endpointpb "github.com/envoyproxy/go-control-plane/envoy/config/endpoint/v3"
 	"google.golang.org/protobuf/types/known/anypb"
 
 	"github.com/kitex-contrib/xds/core/xdsresource"
@@ -30,7 +31,8 @@ type histProfile struct {
 }
 
 var histUniverse = map[string][]string{
-	"lds": {"echo:80", "echo:8888", "Other", "missing.host", xdsresource.ReservedLdsResourceName},
+	// "echo" and "echo:80" are two spellings of one service and port: both bind to the same listener and both are served
+	"lds": {"echo:80", "echo", "echo:8888", "Other", "missing.host", xdsresource.ReservedLdsResourceName},
 	"rds": {"rc-a", "rc-b", "rc-c"},
 	"cds": {"c1", "c2", "c3"},
 	"eds": {"e1", "e2", "e3"},
@@ -44,13 +46,26 @@ var histTables = [][]kv{
 }
 
 type histRun struct {
-	c     *ctx
-	w     *world
-	nds   bool
-	steps []interface{}
-	seq   int
-	now   int
-	hung  bool
+	c       *ctx
+	w       *world
+	nds     bool
+	steps   []interface{}
+	seq     int
+	now     int
+	hung    bool
+	nonceOn map[int]int
+}
+
+// nextNonce numbers the responses per stream, as go-control-plane does: the same nonce strings recur on the next stream.
+func (h *histRun) nextNonce() string {
+	h.w.ads.mu.Lock()
+	sid := len(h.w.ads.streams)
+	h.w.ads.mu.Unlock()
+	if h.nonceOn == nil {
+		h.nonceOn = map[int]int{}
+	}
+	h.nonceOn[sid]++
+	return fmt.Sprintf("n%d", h.nonceOn[sid])
 }
 
 func (h *histRun) observe(mark int) obj {
@@ -214,7 +229,7 @@ func genHistory(c *ctx, prof histProfile, ndsRequired bool) {
 			default:
 				anys = []*anypb.Any{anyNameTable(histTables[ti])}
 			}
-			v, nonce := fmt.Sprintf("v%d", version), fmt.Sprintf("n%d", version)
+			v, nonce := fmt.Sprintf("v%d", version), h.nextNonce()
 			c.count("push=nds", 1)
 			o := obj{"o": "push", "rt": "nds", "v": v, "nonce": nonce, "bad": bad, "empty": empty}
 			if !bad && !empty {
@@ -246,6 +261,13 @@ func genHistory(c *ctx, prof histProfile, ndsRequired bool) {
 			for _, n := range cands {
 				if r.chance(55) {
 					st := fmt.Sprintf("%s#%d", n, version)
+					if rt == "eds" && r.chance(15) {
+						// the service was scaled to zero: an assignment without localities is content, too
+						slots = append(slots, [3]string{"good", n, "typednil"})
+						anys = append(anys, mustAny(&v3endpointpb.ClusterLoadAssignment{ClusterName: n}))
+						c.count("push=eds-empty", 1)
+						continue
+					}
 					slots = append(slots, [3]string{"good", n, st})
 					anys = append(anys, anyStamped(rt, n, st))
 				}
@@ -267,7 +289,7 @@ func genHistory(c *ctx, prof histProfile, ndsRequired bool) {
 				anys = append(anys[:pos], append([]*anypb.Any{badAny(rt, r.intn(3))}, anys[pos:]...)...)
 				c.count("push=bad", 1)
 			}
-			v, nonce := fmt.Sprintf("v%d", version), fmt.Sprintf("n%d", version)
+			v, nonce := fmt.Sprintf("v%d", version), h.nextNonce()
 			c.count("push="+rt, 1)
 			h.step(obj{"o": "push", "rt": rt, "v": v, "nonce": nonce, "slots": slotsJSON(slots)}, func() {
 				w.feed(mkResp(urlOf(rt), v, nonce, anys))
